@@ -117,6 +117,7 @@ type interpreter struct {
 	watch     map[*value]string
 	watchHits []watchHit
 	race      *raceState
+	pools     map[*value][]value // sync.Pool free lists
 
 	mapOrderNondet bool
 	sched          *scheduler
